@@ -3,7 +3,7 @@
    followed by [Print Assumptions]. *)
 From Coq Require Import List NArith Bool.
 From RB Require Import Base.Val Base.Bytes Model.Caps Model.Bfd Model.Stream Model.Rtr Model.Wire Model.WireNlri
-     Model.WireUpdate Model.WireMsg Spec.WireSpec Proofs.Bfd Proofs.Rtr Proofs.WireMsg.
+     Model.WireUpdate Model.WireMsg Spec.WireSpec Proofs.Bfd Proofs.Rtr Proofs.WireMsg Proofs.WireErr.
 Import ListNotations.
 Open Scope N_scope.
 
@@ -23,7 +23,7 @@ Check bfd_accepts_iff_wellformed :
   forall buf : list N, (exists m, bfd_decode buf = BfdOk m) <-> bfd_wellformed buf.
 Print Assumptions bfd_accepts_iff_wellformed.
 
-(* RTR: RtrCodec::decode (as repaired by f773db1) panics on no buffer content. *)
+(* RTR: RtrCodec::decode (f773db1, then 698efb6: complete PDUs of unused types are dropped inside the call) panics on no buffer content. *)
 Theorem rtr_decode_no_panic : never_panics rtr_decode.
 Proof. exact C03_rtr_decode_no_panic. Qed.
 Check rtr_decode_no_panic : never_panics rtr_decode.
@@ -35,13 +35,13 @@ Proof. exact C03_rtr_decode_consumes. Qed.
 Check rtr_decode_progress : consumes_input rtr_decode.
 Print Assumptions rtr_decode_progress.
 
-(* RTR: once the bytes announced by the length field are buffered the answer is a PDU or an error, never "need more" (no stall on unknown types, short PDUs or length < 8). *)
+(* RTR: with a complete frame at the head of the buffer (the bytes announced by the length field, or a length < 8) the call returns a PDU, an error, or - having dropped PDUs of unused types - asks for more with a strictly shorter buffer: it never leaves the buffer unchanged. *)
 Theorem rtr_complete_frame_decided : complete_frame_decided rtr_decode rtr_complete.
 Proof. exact C03_rtr_complete_frame_decided. Qed.
 Check rtr_complete_frame_decided : complete_frame_decided rtr_decode rtr_complete.
 Print Assumptions rtr_complete_frame_decided.
 
-(* RTR: more bytes are requested only while the frame is incomplete. *)
+(* RTR: when more bytes are requested, what stays in the buffer is a suffix of it that does not start with a complete frame. *)
 Theorem rtr_need_only_if_incomplete : need_only_if_incomplete rtr_decode rtr_complete.
 Proof. exact C03_rtr_need_only_if_incomplete. Qed.
 Check rtr_need_only_if_incomplete : need_only_if_incomplete rtr_decode rtr_complete.
@@ -98,3 +98,14 @@ Theorem bgp_fragmentation_invariant_partial : forall other, other_contract other
 Proof. exact C03_bgp_fragmentation_invariant. Qed.
 Check bgp_fragmentation_invariant_partial : forall other, other_contract other -> forall (p : profile) (cd : codec), fragmentation_invariant (try_parse other p cd).
 Print Assumptions bgp_fragmentation_invariant_partial.
+
+(* BGP: every error result of try_parse carries a (code, subcode) of the table of RFC 4271 section 6 /
+   RFC 7606 / RFC 7313 codes the receive path may answer with (Spec/WireSpec.v notification_allowed). *)
+Theorem bgp_errors_are_notifications_partial :
+  forall (other : N -> bool -> list N -> option (list N)) (p : profile) (cd : codec) (src : list N) (e : notif) (rest : list N),
+    try_parse other p cd src = DErr e rest -> notification_allowed (n_code e) (n_sub e) = true.
+Proof. exact C03_bgp_errors_are_notifications. Qed.
+Check bgp_errors_are_notifications_partial :
+  forall (other : N -> bool -> list N -> option (list N)) (p : profile) (cd : codec) (src : list N) (e : notif) (rest : list N),
+    try_parse other p cd src = DErr e rest -> notification_allowed (n_code e) (n_sub e) = true.
+Print Assumptions bgp_errors_are_notifications_partial.
